@@ -164,6 +164,22 @@ def build_driver(i, timeout=1200):
     return {"rc": rc, "errors": errors, "stderr": err[-3000:], "timeout": to}
 
 
+def check_sdk(i, timeout=900):
+    """`cargo check -p sdk` (the property's own observable); used by the shrinker."""
+    d = slot_dir(i)
+    rc, out, err, to = vlib.run(["cargo", "check", "--offline", "-q", "-p", "sdk", "--message-format=json"], cwd=d, env=slot_env(i), timeout=timeout)
+    codes = []
+    for line in out.splitlines():
+        if line.startswith("{"):
+            try:
+                m = json.loads(line)
+            except Exception:
+                continue
+            if m.get("reason") == "compiler-message" and m["message"].get("level") == "error" and m.get("target", {}).get("name") == "sdk":
+                codes.append((m["message"].get("code") or {}).get("code"))
+    return rc, codes
+
+
 def run_driver(i, plan, timeout=300):
     d = slot_dir(i)
     pp = os.path.join(d, "plan.json")
